@@ -2035,3 +2035,6 @@ m("C07", "unquoted-value-keeps-empty-quote", ZP,
 m("C14", "translate-mapping-in-set-order", C,
   "            for name in sorted(names):\n",
   "            for name in names:\n")
+m("C08", "indent-counted-in-blanks", ZP,
+  '''                indent if not indent.strip() else " " * len(indent)''',
+  '''                " " * len(indent)''')
